@@ -134,10 +134,6 @@ func ruleNAV6(p *Program) *RuleResult {
 	if err != nil {
 		return r.anchorFail(err)
 	}
-	ie, err := p.Method("fhirpath/internal/expr", "FieldExpression", "isEvaluable")
-	if err != nil {
-		return r.anchorFail(err)
-	}
 	// (a) the lookups Evaluate performs on Descriptor().Fields() for a given element
 	// name: Evaluate is analysed with FieldName pinned and every lookup answering
 	// "absent", so that each fallback is reached; the names handed to ByName /
@@ -202,50 +198,16 @@ func ruleNAV6(p *Program) *RuleResult {
 		return r.anchorFail(fmt.Errorf("anchor: datatypes HumanName not found"))
 	}
 	hn := types.NewPointer(hnObj.Type())
-	var fieldNameLoads, permLoads []ssa.Value
-	for _, b := range ie.Blocks {
-		for _, ins := range b.Instrs {
-			if ld, ok := ins.(*ssa.UnOp); ok {
-				if fa, ok := ld.X.(*ssa.FieldAddr); ok && fa.X == ssa.Value(ie.Params[0]) {
-					switch fieldName(fa) {
-					case "FieldName":
-						fieldNameLoads = append(fieldNameLoads, ld)
-					case "Permissive":
-						permLoads = append(permLoads, ld)
-					}
-				}
-			}
-		}
-	}
 	admitCache := map[string]int{}
 	admit := func(json string) int { // 1 yes, 0 no, -1 undecided
 		if v, ok := admitCache[json]; ok {
 			return v
 		}
-		an := newAnalyzer()
-		an.maxBlocks = 200
-		for _, l := range fieldNameLoads {
-			an.pin[l] = cStr(json)
-		}
-		for _, l := range permLoads {
-			an.pin[l] = cBool(false)
-		}
-		an.callModel = stringLibModel
-		res := an.analyze(ie, []aval{nonnil("e"), {k: kNonNil, dyn: hn}})
-		out := -1
-		if len(res.rets) == 1 && len(res.hazards) == 0 {
-			if v := res.rets[0].vals[0]; v.k == kConst && v.c.Kind() == constant.Bool {
-				if constant.BoolVal(v.c) {
-					out = 1
-				} else {
-					out = 0
-				}
-			}
-		}
+		out := fieldAdmission(p, ev, hn, json, false)
 		admitCache[json] = out
 		return out
 	}
-	admitDescr := "isEvaluable (SCCP with the name pinned)"
+	admitDescr := "Evaluate analysed with the name pinned: only ErrInvalidField returns"
 	fields, err := schemaFields(p)
 	if err != nil {
 		return r.anchorFail(err)
@@ -300,7 +262,7 @@ func ruleNAV6(p *Program) *RuleResult {
 	}
 	sort.Strings(names)
 	for _, k := range names {
-		r.bad("element-name|"+k, fmt.Sprintf("element name %q cannot be navigated (%d element(s), e.g. %s)", k, len(bad[k]), bad[k][0]), p.pos(ie.Pos()),
+		r.bad("element-name|"+k, fmt.Sprintf("element name %q cannot be navigated (%d element(s), e.g. %s)", k, len(bad[k]), bad[k][0]), p.pos(ev.Pos()),
 			"an element of the R4 schema is unreachable by its FHIR name: the path fails with ErrInvalidField instead of yielding the element")
 	}
 	if len(names) == 0 {
@@ -309,6 +271,53 @@ func ruleNAV6(p *Program) *RuleResult {
 	}
 	r.floor("schema_fields_checked", 3000)
 	return r
+}
+
+// fieldAdmission: does FieldExpression.Evaluate admit the element name on a
+// message of the given datatypes type?  Evaluate is analysed with the name and
+// the Permissive flag pinned and every descriptor lookup answering "found": a
+// refused name yields only ErrInvalidField returns, an admitted one none.
+// 1 admitted, 0 refused, -1 not decided.
+func fieldAdmission(p *Program, ev *ssa.Function, msgType types.Type, name string, permissive bool) int {
+	an := newAnalyzer()
+	an.maxBlocks = 300
+	an.callModel = func(c *ssa.CallCommon, args []aval) (aval, bool) {
+		if c.IsInvoke() && namedName(c.Value.Type()) == "FieldDescriptors" && len(args) == 2 {
+			switch c.Method.Name() {
+			case "ByName", "ByJSONName":
+				return nonnil("field-descriptor"), true
+			}
+		}
+		return stringLibModel(c, args)
+	}
+	recv := nodeReceiver(ev, map[string]aval{"FieldName": cStr(name), "Permissive": cBool(permissive)})
+	item := aval{k: kNonNil, dyn: msgType}
+	res := an.analyze(ev, []aval{recv, nonnil("ctx"), coll(item)})
+	if res.nonconverged || len(res.rets) == 0 {
+		return -1
+	}
+	invalid, other := 0, 0
+	for _, ri := range res.rets {
+		e := ri.vals[len(ri.vals)-1]
+		isInvalid := false
+		for _, n := range e.notes {
+			if strings.HasSuffix(n, "ErrInvalidField") {
+				isInvalid = true
+			}
+		}
+		if isInvalid {
+			invalid++
+		} else {
+			other++
+		}
+	}
+	switch {
+	case invalid > 0 && other == 0:
+		return 0
+	case invalid == 0:
+		return 1
+	}
+	return -1
 }
 
 func keysOf(m map[string]bool) []string {
@@ -470,7 +479,7 @@ func globalStringSlice(g *ssa.Global) ([]string, bool) {
 // there and nowhere else.
 func ruleNAV4(p *Program) *RuleResult {
 	r := newResult("NAV4")
-	ie, err := p.Method("fhirpath/internal/expr", "FieldExpression", "isEvaluable")
+	ev, err := p.Method("fhirpath/internal/expr", "FieldExpression", "Evaluate")
 	if err != nil {
 		return r.anchorFail(err)
 	}
@@ -478,40 +487,16 @@ func ruleNAV4(p *Program) *RuleResult {
 	if err != nil {
 		return r.anchorFail(err)
 	}
-	var fieldNameLoads, permLoads []ssa.Value
-	for _, b := range ie.Blocks {
-		for _, ins := range b.Instrs {
-			if ld, ok := ins.(*ssa.UnOp); ok {
-				if fa, ok := ld.X.(*ssa.FieldAddr); ok && fa.X == ssa.Value(ie.Params[0]) {
-					switch fieldName(fa) {
-					case "FieldName":
-						fieldNameLoads = append(fieldNameLoads, ld)
-					case "Permissive":
-						permLoads = append(permLoads, ld)
-					}
-				}
-			}
-		}
-	}
 	eval := func(typ, name string, permissive bool) string {
 		o := dt.Scope().Lookup(typ)
 		if o == nil {
 			return "?type"
 		}
-		an := newAnalyzer()
-		an.maxBlocks = 200
-		for _, l := range fieldNameLoads {
-			an.pin[l] = cStr(name)
-		}
-		for _, l := range permLoads {
-			an.pin[l] = cBool(permissive)
-		}
-		an.callModel = stringLibModel
-		res := an.analyze(ie, []aval{nonnil("e"), {k: kNonNil, dyn: types.NewPointer(o.Type())}})
-		if len(res.rets) == 1 && len(res.hazards) == 0 {
-			if v := res.rets[0].vals[0]; v.k == kConst && v.c.Kind() == constant.Bool {
-				return fmt.Sprint(constant.BoolVal(v.c))
-			}
+		switch fieldAdmission(p, ev, types.NewPointer(o.Type()), name, permissive) {
+		case 1:
+			return "true"
+		case 0:
+			return "false"
 		}
 		return "?"
 	}
@@ -530,17 +515,17 @@ func ruleNAV4(p *Program) *RuleResult {
 			key := fmt.Sprintf("isEvaluable|%s.%s", typ, name)
 			desc := fmt.Sprintf("%s.%s admitted=%s (want %s)", typ, name, got, want)
 			if got == want {
-				r.ok(key, desc, p.pos(ie.Pos()), "SCCP with the name and the message's dynamic type pinned", true)
+				r.ok(key, desc, p.pos(ev.Pos()), "SCCP with the name and the message's dynamic type pinned", true)
 			} else {
-				r.bad(key, desc, p.pos(ie.Pos()), "the proto-only pseudo fields must be refused on Date/DateTime/Time/Instant and only there; snake_case and UpperCamel names are refused everywhere")
+				r.bad(key, desc, p.pos(ev.Pos()), "the proto-only pseudo fields must be refused on Date/DateTime/Time/Instant and only there; snake_case and UpperCamel names are refused everywhere")
 			}
 		}
 	}
 	// permissive mode admits everything
 	if got := eval("Date", "value_us", true); got == "true" {
-		r.ok("isEvaluable|permissive", "permissive mode admits any name", p.pos(ie.Pos()), "SCCP", true)
+		r.ok("isEvaluable|permissive", "permissive mode admits any name", p.pos(ev.Pos()), "SCCP", true)
 	} else {
-		r.bad("isEvaluable|permissive", "permissive mode refuses a name ("+got+")", p.pos(ie.Pos()), "Permissive() must disable the admission test")
+		r.bad("isEvaluable|permissive", "permissive mode refuses a name ("+got+")", p.pos(ev.Pos()), "Permissive() must disable the admission test")
 	}
 	r.floor("hypotheses", 50)
 	return r
